@@ -43,6 +43,10 @@ _UNOPS = {ast.USub: '-', ast.UAdd: '+', ast.Not: 'not', ast.Invert: '~'}
 NOELEM = T('noelem')
 
 # external functions that map over a pytree argument leaf-wise
+_CMP_FUNCS = {'jax.numpy.greater': '>', 'jax.numpy.greater_equal': '>=', 'jax.numpy.less': '<', 'jax.numpy.less_equal': '<=',
+              'jax.numpy.equal': '==', 'jax.numpy.not_equal': '!=',
+              'jax.lax.gt': '>', 'jax.lax.ge': '>=', 'jax.lax.lt': '<', 'jax.lax.le': '<=', 'jax.lax.eq': '==', 'jax.lax.ne': '!='}
+
 _PYTREE_EXT = {'jax.lax.all_gather', 'jax.lax.with_sharding_constraint', 'jax.lax.psum', 'jax.lax.pmean',
                'jax.lax.stop_gradient', 'jax.device_put', 'jax.block_until_ready'}
 
@@ -1253,6 +1257,8 @@ class Evaluator:
       return r_
     if op == 'ext':
       args, kwargs = extsig.canonical(f.args[0], args, kwargs)
+      if f.args[0] in _CMP_FUNCS and len(args) == 2 and not kwargs:
+        return self.compare(_CMP_FUNCS[f.args[0]], args[0], args[1], n)      # jnp.greater_equal(a, b) is a >= b
       if f.args[0] in ('jax.numpy.where', 'jax.lax.select', 'numpy.where') and len(args) == 3 and not kwargs:
         c2, flipped = strip_negation(args[0])       # canonical polarity of array selects
         if flipped:
